@@ -16,6 +16,26 @@ def obligations(tier):
     return o
 
 
+def post(tier, results):
+    """Translator validation: the reference decoder and the real library must agree on every byte-array literal of the repository's own
+    tests and on every truncation of the short ones (native build of the current sources). A disagreement is reported with the vector as
+    its replay artefact: on the unchanged tree there is none, so it means the library changed behaviour on a vector its own suite pins."""
+    import json, os
+    import vectors, vf
+    r = vectors.run()
+    out = {"repo_test_vectors": {k: v for k, v in r.items() if k != "mismatches"}, "traces_validated_against_impl": r.get("cases_with_truncations", 0)}
+    if r.get("error"):
+        out["inconclusive"] = [{"obligation": "repo_test_vectors", "status": "ERROR", "msg": r["error"]}]
+    elif r.get("mismatches"):
+        os.makedirs(vf.REPLAYS, exist_ok=True)
+        path = os.path.join(vf.REPLAYS, "C02-vectors.json")
+        json.dump({"property_id": "C02", "mismatches": r["mismatches"][:20]}, open(path, "w"), indent=1)
+        m = r["mismatches"][0]
+        out["violations"] = [{"obligation": "repo_test_vectors", "description": "cbor_load disagrees with the RFC 8949 reference decoder on %s (%s): library %s, reference %s" % (m["vector"], m.get("bytes"), m.get("library"), m.get("reference")),
+                              "replay": path, "native": "native run of cbor_load on the vector", "location": {}}]
+    return out
+
+
 META = dict(
     level="model_checking",
     bounds={"quick": "all live head sequences of <= 3 heads over a 17-symbol structural alphabet (counts/lengths 0..2, every reserved-byte class, every argument-width form) + leaf-variety and named special shapes; every integer/float/tag argument byte and payload byte symbolic; DEBUG and NDEBUG builds",
